@@ -1,7 +1,7 @@
 SPECIFICATION Spec
 CONSTANTS
   Cls = {"P", "C", "N", "I", "T"}
-  MsgKinds = {"explicit", "kwtemplate", "class", "kwnested", "kwcustom", "kwattr"}
+  MsgKinds = {"explicit", "kwtemplate", "class", "kwnested", "kwcustom", "kwattr", "kwhostile"}
   Outs = {"T", "F", "CR", "MR"}
   DelayCls = {"P", "C"}
   Vals = {"o1", "o2"}
